@@ -37,12 +37,14 @@ type rcCfg struct {
 	P1      string   `json:"p1"`
 	Best    string   `json:"best"`
 	Caches  []string `json:"caches"`
+	Ub      string   `json:"ub"`
 }
 type rcCase struct {
 	Seq       []string `json:"seq"`
 	Configs   []rcCfg  `json:"configs"`
 	Lingering bool     `json:"lingering"`
 	Retained  bool     `json:"retained"`
+	Gap       int      `json:"gap"`
 }
 
 func freePort() int {
@@ -53,6 +55,9 @@ func freePort() int {
 	defer ln.Close()
 	return ln.Addr().(*net.TCPAddr).Port
 }
+
+// slowUpdates: every update of the configuration takes a few hundred milliseconds (an upstream whose health check is slow)
+var rcSlowUpdates bool
 
 func rcYAML(c *rcCfg, ports map[string]int, backA, backB string) []byte {
 	pc := config.PikeConfig{}
@@ -69,6 +74,15 @@ func rcYAML(c *rcCfg, ports map[string]int, backA, backB string) []byte {
 	pc.Upstreams = []config.UpstreamConfig{
 		{Name: "uA", Servers: []config.UpstreamServerConfig{{Addr: backA}}},
 		{Name: "uB", Servers: []config.UpstreamServerConfig{{Addr: backB}}},
+	}
+	if rcSlowUpdates {
+		pc.Upstreams = append(pc.Upstreams, config.UpstreamConfig{Name: "uS", HealthCheck: "/slowping", Servers: []config.UpstreamServerConfig{{Addr: backA}}})
+	}
+	switch c.Ub {
+	case "B+Ab":
+		pc.Upstreams[1].Servers = []config.UpstreamServerConfig{{Addr: backB}, {Addr: backA, Backup: true}}
+	case "Bb+A":
+		pc.Upstreams[1].Servers = []config.UpstreamServerConfig{{Addr: backB, Backup: true}, {Addr: backA}}
 	}
 	pc.Locations = []config.LocationConfig{
 		{Name: "l1", Upstream: c.L1up, Prefixes: []string{"/a"}, ReqHeaders: []string{"X-L:1"}},
@@ -248,6 +262,11 @@ func Reconfig(w *world.World, raws []json.RawMessage) ([]interface{}, error) {
 	}
 	mk := func(tag string) *http.Server {
 		return &http.Server{Handler: http.HandlerFunc(func(rw http.ResponseWriter, req *http.Request) {
+			if req.URL.Path == "/slowping" {
+				time.Sleep(300 * time.Millisecond)
+				rw.WriteHeader(200)
+				return
+			}
 			h := rw.Header()
 			h.Set("X-Backend", tag)
 			h.Set("X-Seen-L", req.Header.Get("X-L"))
@@ -296,8 +315,9 @@ func Reconfig(w *world.World, raws []json.RawMessage) ([]interface{}, error) {
 		if err := json.Unmarshal(raw, &c); err != nil {
 			return nil, err
 		}
-		livePorts := map[string]int{"A": freePort(), "B": freePort()}
-		freshPorts := map[string]int{"A": freePort(), "B": freePort()}
+		rcSlowUpdates = c.Gap >= 0
+		livePorts := map[string]int{"A": freePort(), "B": freePort(), "C": freePort()}
+		freshPorts := map[string]int{"A": freePort(), "B": freePort(), "C": freePort()}
 		liveFile := filepath.Join(dir, fmt.Sprintf("live%d.yml", ci))
 		freshFile := filepath.Join(dir, fmt.Sprintf("fresh%d.yml", ci))
 		if err := rcWrite(liveFile, rcYAML(&c.Configs[0], livePorts, backA, backB), true); err != nil {
@@ -343,17 +363,23 @@ func Reconfig(w *world.World, raws []json.RawMessage) ([]interface{}, error) {
 					}
 				}()
 			}
-			hadB := false
+			had := map[string]bool{}
 			for _, s := range c.Configs[0].Servers {
-				if s.Addr == "B" {
-					hadB = true
-				}
+				had[s.Addr] = true
 			}
 			for k := 1; k < len(c.Configs); k++ {
 				before := atomic.LoadInt32(&live.updates)
 				if err := rcWrite(liveFile, rcYAML(&c.Configs[k], livePorts, backA, backB), false); err != nil {
 					o["infra"] = err.Error()
 					break
+				}
+				if c.Gap >= 0 && k == len(c.Configs)-2 {
+					// the next configuration is written while this one is still being applied
+					for _, s := range c.Configs[k].Servers {
+						had[s.Addr] = true
+					}
+					time.Sleep(time.Duration(c.Gap) * time.Millisecond)
+					continue
 				}
 				deadline := time.Now().Add(10 * time.Second)
 				for atomic.LoadInt32(&live.updates) == before && time.Now().Before(deadline) {
@@ -364,10 +390,20 @@ func Reconfig(w *world.World, raws []json.RawMessage) ([]interface{}, error) {
 					break
 				}
 				time.Sleep(150 * time.Millisecond)
-				for _, s := range c.Configs[k].Servers {
-					if s.Addr == "B" {
-						hadB = true
+				if c.Gap >= 0 {
+					// let every pending update finish: no further report for a while
+					for quiet := 0; quiet < 10; {
+						n := atomic.LoadInt32(&live.updates)
+						time.Sleep(100 * time.Millisecond)
+						if atomic.LoadInt32(&live.updates) == n {
+							quiet++
+						} else {
+							quiet = 0
+						}
 					}
+				}
+				for _, s := range c.Configs[k].Servers {
+					had[s.Addr] = true
 				}
 			}
 			close(stop)
@@ -377,23 +413,29 @@ func Reconfig(w *world.World, raws []json.RawMessage) ([]interface{}, error) {
 			}
 			o["errorsDuring"] = int(atomic.LoadInt32(&errs))
 			final := &c.Configs[len(c.Configs)-1]
-			finalB := false
+			finalHas := map[string]bool{}
 			for _, s := range final.Servers {
-				if s.Addr == "B" {
-					finalB = true
-					waitPort(livePorts["B"], true, 5*time.Second)
+				finalHas[s.Addr] = true
+				if s.Addr != "A" {
+					waitPort(livePorts[s.Addr], true, 5*time.Second)
 				}
 			}
 			_, rh, _, _ := rcGet(livePorts["A"], retainKey, "gzip")
 			o["retainedHit"] = rh != nil && rh.Get("X-Status") == "hit"
 			liveAll, liveNoBest := rcProbes(livePorts["A"], "A")
-			if finalB {
-				a, b := rcProbes(livePorts["B"], "B")
-				liveAll, liveNoBest = append(liveAll, a...), append(liveNoBest, b...)
+			for _, x := range []string{"B", "C"} {
+				if finalHas[x] {
+					a, b := rcProbes(livePorts[x], x)
+					liveAll, liveNoBest = append(liveAll, a...), append(liveNoBest, b...)
+				}
 			}
-			if hadB && !finalB {
-				// a removed server stops listening (pike closes it gracefully: 10 s)
-				o["removedClosed"] = waitPort(livePorts["B"], false, 13*time.Second)
+			for _, x := range []string{"B", "C"} {
+				if had[x] && !finalHas[x] {
+					// a removed server stops listening (pike closes it gracefully: 10 s)
+					if !waitPort(livePorts[x], false, 13*time.Second) {
+						o["removedClosed"] = false
+					}
+				}
 			}
 			o["live"], o["liveNoBest"] = liveAll, liveNoBest
 			// the fresh instance
@@ -411,13 +453,13 @@ func Reconfig(w *world.World, raws []json.RawMessage) ([]interface{}, error) {
 				o["infra"] = "fresh instance did not start"
 				return
 			}
-			if finalB {
-				waitPort(freshPorts["B"], true, 5*time.Second)
-			}
 			freshAll, freshNoBest := rcProbes(freshPorts["A"], "A")
-			if finalB {
-				a, b := rcProbes(freshPorts["B"], "B")
-				freshAll, freshNoBest = append(freshAll, a...), append(freshNoBest, b...)
+			for _, x := range []string{"B", "C"} {
+				if finalHas[x] {
+					waitPort(freshPorts[x], true, 5*time.Second)
+					a, b := rcProbes(freshPorts[x], x)
+					freshAll, freshNoBest = append(freshAll, a...), append(freshNoBest, b...)
+				}
 			}
 			o["fresh"], o["freshNoBest"] = freshAll, freshNoBest
 		}()
